@@ -69,6 +69,11 @@ def oracle_C01(inp):
     s = inp["s"]
     if "?" in s:
         return []
+    for pre in inp.get("pre", []):      # earlier calls must not matter: Sid objects handed to the factory
+        try:
+            Sid(Sid(pre))
+        except BaseException as e:  # noqa
+            return ["Sid(Sid(%r)) raised %s: %s" % (pre, type(e).__name__, e)]
     try:
         x = Sid(s)
     except BaseException as e:  # noqa
@@ -430,8 +435,8 @@ def oracle_C08(inp):
     from spil import FindInList
     from spil.sid.read.tools import unfold_search
     L, s = inp["l"], inp["s"]
-    if ">" in s or any("[" in x for x in L) or "[" in s:
-        return []
+    if ">" in s or ((any("[" in x for x in L) or "[" in s) and not inp.get("allow_bracket")):
+        return []     # '[' : known finding K2 (replayed by its exact input only)
     out = []
     try:
         got = list(FindInList(list(L)).find(s, as_sid=False))
@@ -490,6 +495,10 @@ def oracle_C09(inp):
             return []
     try:
         got = list(FindInList(list(L)).find(s, as_sid=False))
+        for _ in range(inp.get("repeat", 1)):     # asking again (same or another Finder instance) changes nothing
+            again = list(FindInList(list(L)).find(s, as_sid=False))
+            if again != got:
+                return ["find(%r) answered %r, then %r when asked again" % (s, got, again)]
         matching = list(FindInList(list(L)).find(s.replace(">", "*"), as_sid=False))
     except BaseException as e:  # noqa
         return ["find(%r) raised %s: %s" % (s, type(e).__name__, e)]
@@ -665,8 +674,8 @@ def oracle_C05(inp):
     x = Sid(s)
     if not x or x.is_search():
         return []
-    if any(v in ("", ".") or "/" in v for v in x.fields.values()):
-        return []
+    if any(v in ("", ".") or "/" in v for v in x.fields.values()) and not inp.get("allow_empty"):
+        return []     # known finding K1 (replayed by its exact input only)
     paths = {}
     for cfg in conf.path_configs.keys():
         try:
@@ -693,13 +702,15 @@ def oracle_C05(inp):
         elif not natural(x) and (str(y) != str(x) or y.type != x.type):
             out.append("Sid(path=%r, config=%r) = %r, expected %r" % (str(p), cfg, y.uri, x.uri))
     roots = _roots()
+    if len(set(roots.values())) == len(roots) and len(paths) > 1 and len(set(paths.values())) != len(paths):
+        out.append("%r has the same path under configurations with different roots: %r" % (x.uri, paths))
     rel = {cfg: p[len(roots[cfg]):] for cfg, p in paths.items() if p.startswith(roots[cfg])}
     if len(rel) != len(paths) or len(set(rel.values())) > 1:
         out.append("paths of %r differ by more than the root: %r" % (x.uri, paths))
     s2 = inp.get("s2")
     if s2:
         z = Sid(s2)
-        if z and not z.is_search() and not any(v in ("", ".") for v in z.fields.values()):
+        if z and not z.is_search() and (inp.get("allow_empty") or not any(v in ("", ".") for v in z.fields.values())):
             for cfg in paths:
                 pz = z.path(cfg)
                 if pz is not None and str(pz) == paths[cfg] and not (z.type == x.type and z.fields == x.fields):
@@ -1022,6 +1033,8 @@ def oracle_C16(inp):
             e = enc(x)
             if e:
                 stored["sid"] = e
+            else:
+                stored.pop("sid", None)      # "omitted when it returns None"
             exp = {k: stored.get(k) for k in attributes} if attributes else stored
             if dict(rec) != exp:
                 out.append("record of %r for get(%r, %r): expected %r, got %r" % (x.uri, s, attributes, exp, dict(rec)))
